@@ -123,7 +123,12 @@ class FakeTransport(asyncio.Transport):
         self._closing = True
         self._conn_lost += 1
         self.closed_by = self.closed_by or "client"
-        self.loop.call_soon(self._call_connection_lost, None)
+        lat = self.net.close_latency
+        if lat > 0:
+            # a close that has to wait (unsent data still buffered): connection_lost is reported later
+            self.loop.call_later(lat, self._call_connection_lost, None)
+        else:
+            self.loop.call_soon(self._call_connection_lost, None)
 
     def abort(self) -> None:
         self._fatal(None, who="client")
@@ -216,6 +221,7 @@ class FakeNet:
         self.on_data: Optional[Callable[[FakeTransport, bytes], None]] = None
         self.inflight = 0
         self.arm_on_accept: list = []   # write-fault positions to arm on the next accepted connections
+        self.close_latency = 0.0         # virtual seconds between transport.close() and connection_lost
         _CURRENT[0] = self
 
     def _event(self, kind: str, *args) -> None:
@@ -262,7 +268,8 @@ class FakeNet:
         tr = FakeTransport(self, protocol, cid)
         self.conns.append(tr)
         self.open_conns.add(cid)
-        self.max_open = max(self.max_open, len(self.open_conns))
+        # connections the client is still holding (a transport it has asked to close no longer counts)
+        self.max_open = max(self.max_open, sum(1 for c in self.conns if c.alive))
         self._event("open", cid)
         protocol.connection_made(tr)
         writer = asyncio.StreamWriter(tr, protocol, reader, self.loop)
@@ -277,6 +284,7 @@ class FakeNet:
     def heal(self) -> None:
         """Make the network behave: clear script and every armed fault."""
         self.script.clear()
+        self.close_latency = 0.0
         self.arm_on_accept.clear()
         self.default = ("accept", 0.0)
         for c in self.conns:
